@@ -636,7 +636,8 @@ XMLByte* Base64::decode (   const XMLByte*        const   inputData
 
 bool Base64::isData(const XMLByte& octet)
 {
-    return (base64Inverse[octet]!=(XMLByte)-1);
+    // the table has BASELENGTH (255) entries: octet 0xFF must not index it
+    return (octet < BASELENGTH) && (base64Inverse[octet]!=(XMLByte)-1);
 }
 
 }
